@@ -96,6 +96,35 @@ def _rx(pat):
     return pat.replace(" = ", r"\s*=\s*")
 
 
+def shape_signature(src, it):
+    """Field names of a struct / variant names of an enum, in order (comments and attributes ignored)."""
+    t = src.text(*it["span"])
+    t = re.sub(r"//[^\n]*", "", t)
+    t = re.sub(r"/\*.*?\*/", "", t, flags=re.S)
+    t = re.sub(r"#\[[^\]]*\]", "", t)
+    a = t.find("{")
+    if a < 0:
+        return []
+    body = t[a + 1:t.rfind("}")]
+    parts, depth, cur = [], 0, ""
+    for ch in body:
+        if ch in "<({[":
+            depth += 1
+        elif ch in ">)}]":
+            depth -= 1
+        if ch == "," and depth == 0:
+            parts.append(cur); cur = ""
+        else:
+            cur += ch
+    parts.append(cur)
+    out = []
+    for p_ in parts:
+        m = re.match(r"\s*(?:pub(?:\([^)]*\))?\s+)?(\w+)", p_)
+        if m:
+            out.append(m.group(1))
+    return out
+
+
 def serde_signature(src, it):
     """The serde attributes of an item (whitespace-normalised, in order) and which serde derives it has."""
     sig = []
@@ -484,6 +513,14 @@ class Unit:
             # E1 drops serde attributes; the (de)serialization assumptions of env/ were stated for the
             # attributes recorded in specs/attr_baseline.json -- any other set leaves them unjustified
             base = attr_baseline().get(f"{src.rel}::{it.get('qual')}")
+            if isinstance(base, dict):
+                shape0, base = base.get("shape"), base.get("serde")
+                shape1 = shape_signature(src, it)
+                if shape0 is not None and shape0 != shape1:
+                    # contracts and representation invariants were written for these fields; with state
+                    # added or removed a correct implementation may need an invariant no contract states
+                    raise Undecided(f"the fields of {it.get('qual')} ({src.rel}) are not the ones its contracts were written for: "
+                                    f"{shape1} instead of {shape0}")
             now = serde_signature(src, it)
             if base is not None and base != now:
                 raise Undecided(f"E1: the serde attributes of {it.get('qual')} ({src.rel}) are not the ones the (de)serialization "
